@@ -59,8 +59,10 @@ func corpusDir(target string) string {
 }
 
 const (
-	// factLimit is the limit handed to engine.WithCreatedFactLimit.
-	factLimit = 200
+	// factLimit is the limit handed to engine.WithCreatedFactLimit for half of the inputs; the other half (chosen
+	// by a hash of the input, so that a case stays a pure function of its bytes) runs under smallFactLimit.
+	factLimit      = 200
+	smallFactLimit = 3
 	// maxInput bounds the inputs (bytes). Larger inputs are not generated and skipped by the fuzz targets:
 	// the recursive-descent parser needs stack proportional to the nesting depth, which is a resource limit
 	// and not the subject of the property.
@@ -185,6 +187,39 @@ type countingStore struct {
 	remover factstore.FactStoreWithRemove
 	n       *int
 	bound   int
+	// lattice: predicates declared with a merge predicate. Every derived fact of such a predicate is offered to
+	// the store by one GetFacts lookup of the existing facts, also when the merge predicate then discards it, so
+	// these lookups are the "created facts" a successful Add cannot see. offered counts GetFacts calls on them.
+	lattice    map[ast.PredicateSym]bool
+	offered    *int
+	offerBound int
+}
+
+// noNamedVariable: every argument is a constant or the wildcard, as in the lookup of the existing facts by which
+// the engine merges a derived fact of a lattice predicate (source columns as constants, the others open).
+func noNamedVariable(a ast.Atom) bool {
+	for _, arg := range a.Args {
+		if v, ok := arg.(ast.Variable); ok && v.Symbol != "_" {
+			return false
+		}
+		if _, ok := arg.(ast.ApplyFn); ok {
+			return false
+		}
+	}
+	return true
+}
+
+// offerSentinel is the private panic value for too many lookups on lattice predicates.
+type offerSentinel struct{ offered, bound int }
+
+func (s countingStore) GetFacts(a ast.Atom, fn func(ast.Atom) error) error {
+	if s.lattice[a.Predicate] && noNamedVariable(a) {
+		*s.offered++
+		if *s.offered > s.offerBound {
+			panic(offerSentinel{*s.offered, s.offerBound})
+		}
+	}
+	return s.FactStore.GetFacts(a, fn)
 }
 
 func (s countingStore) Add(a ast.Atom) bool {
@@ -234,7 +269,7 @@ func (s countingTemporalStore) AddEternal(a ast.Atom) (bool, error) {
 // store, F facts and R rules in the program, L the limit) and at least 50 000: the engine checks the
 // limit per join (<= L solutions per rule evaluation) and per round, so a first round may add R*L facts
 // unchecked and every later round is cut at L+1.
-func createdBound(unit parse.SourceUnit) int {
+func createdBound(unit parse.SourceUnit, factLimit int) int {
 	f, r := 0, 0
 	for _, c := range unit.Clauses {
 		if c.Premises == nil {
@@ -244,7 +279,7 @@ func createdBound(unit parse.SourceUnit) int {
 		}
 	}
 	b := 2*(f+(2*r+2)*(factLimit+1)) + 16
-	if 2*b < 50000 {
+	if 2*b < 50000 && factLimit > smallFactLimit {
 		return 50000
 	}
 	return 2 * b
@@ -256,7 +291,12 @@ func guarded(o *outcome, fn func()) {
 		if r := recover(); r != nil {
 			if s, ok := r.(overrunSentinel); ok {
 				o.overrun = true
-				o.overrunMsg = fmt.Sprintf("evaluation under WithCreatedFactLimit(%d) created %d facts (bound %d): the limit is not enforced, evaluation would not return", factLimit, s.created, s.bound)
+				o.overrunMsg = fmt.Sprintf("evaluation under a created-fact limit created %d facts (bound %d): the limit is not enforced, evaluation would not return", s.created, s.bound)
+				return
+			}
+			if s, ok := r.(offerSentinel); ok {
+				o.overrun = true
+				o.overrunMsg = fmt.Sprintf("evaluation under a created-fact limit looked up the existing facts of predicates with a merge declaration %d times (bound %d): derived facts keep being offered to the store, the limit does not stop the rounds, evaluation would not return", s.offered, s.bound)
 				return
 			}
 			o.panicked = true
@@ -434,14 +474,50 @@ func execUnit(o *outcome, data []byte) {
 		return
 	}
 	// Fresh stores for every input; both are counted together against the bound.
-	created := 0
-	bound := createdBound(unit)
+	created, offered := 0, 0
+	lattice := map[ast.PredicateSym]bool{}
+	for sym, d := range info.Decls {
+		if d == nil {
+			continue
+		}
+		for _, a := range d.Descr {
+			if a.Predicate.Symbol == ast.DescrMergePredicate {
+				lattice[sym] = true
+			}
+		}
+	}
+	limit := factLimit
+	if stats.Hash(string(data))&1 == 1 {
+		limit = smallFactLimit
+		o.label("small_limit")
+	}
+	bound := createdBound(unit, limit)
 	simple := factstore.NewSimpleInMemoryStore()
-	store := countingStore{FactStore: simple, remover: simple, n: &created, bound: bound}
+	// Derived facts of lattice predicates are offered to the store by a lookup without named variables. There are
+	// at most as many of them as created facts (bound), plus the reads of body atoms of that shape (no named
+	// variable, which is rare): a stratum runs at most limit+2 rounds of at most 2R+2 (delta) rules with at most
+	// limit+1 partial solutions per join, times at most R+1 strata.
+	r := len(info.Rules)
+	openAtoms := 0
+	for _, c := range info.Rules {
+		for _, p := range c.Premises {
+			if a, ok := p.(ast.Atom); ok && lattice[a.Predicate] && noNamedVariable(a) {
+				openAtoms++
+			}
+		}
+	}
+	nf := 0
+	for _, c := range unit.Clauses {
+		if c.Premises == nil {
+			nf++
+		}
+	}
+	offerBound := 2*(2*(nf+(2*r+2)*(limit+1))+16) + openAtoms*(r+1)*(limit+2)*(2*r+2)*(limit+1)
+	store := countingStore{FactStore: simple, remover: simple, n: &created, bound: bound, lattice: lattice, offered: &offered, offerBound: offerBound}
 	temporal := countingTemporalStore{TemporalFactStore: factstore.NewTemporalStore(), n: &created, bound: bound}
 	guarded(o, func() {
 		err = engine.EvalProgram(info, store,
-			engine.WithCreatedFactLimit(factLimit),
+			engine.WithCreatedFactLimit(limit),
 			engine.WithTemporalStore(temporal),
 			engine.WithEvaluationTime(evalTime))
 	})
